@@ -29,6 +29,8 @@ import (
 //
 //	S.send/S.recv/R.send/R.recv : the K-th call of that kind on that end fails
 //	cancelS/cancelR/cancelB     : the context(s) are cancelled at quiescent point K
+//	killR/killS                 : the process owning that end is killed at quiescent point K: its own stream calls
+//	                              fail, the peer reads EOF after draining the queue and the peer's sends fail
 //	break                       : the stream is torn down at quiescent point K
 //	walk                        : the source walk fails at entry K
 //	read                        : reading source file number K fails after J bytes
@@ -217,9 +219,20 @@ func xferBody(sc Scn, src fsmodel.Tree, srcDir, destDir string, res *XferRes) Bo
 		var progress func(int, bool)
 		if sc.Progress {
 			lastV, finals := -1, 0
+			inCb := 0
 			progress = func(n int, last bool) {
+				// the callback is a scheduling point of its own: a library that calls it from two goroutines at
+				// once races on whatever state an unsynchronised callback keeps
+				mu.Lock()
+				inCb++
+				if inCb > 1 && res.ProgressBad == "" {
+					res.ProgressBad = "two progress callbacks in flight at once"
+				}
+				mu.Unlock()
+				vrt.Gate("progress cb", nil)
 				mu.Lock()
 				defer mu.Unlock()
+				inCb--
 				if finals > 0 && res.ProgressBad == "" {
 					res.ProgressBad = "progress callback after the final call"
 				}
@@ -266,9 +279,15 @@ func xferBody(sc Scn, src fsmodel.Tree, srcDir, destDir string, res *XferRes) Bo
 		for {
 			if sc.Fault.Kind != "" && s.N() == sc.Fault.K {
 				switch sc.Fault.Kind {
-				case "cancelS", "cancelR", "cancelB", "break":
+				case "cancelS", "cancelR", "cancelB", "break", "killR", "killS":
 					synctest.Wait()
 					res.FaultHit = true
+					if sc.Fault.Kind == "killR" {
+						rEnd.Kill()
+					}
+					if sc.Fault.Kind == "killS" {
+						sEnd.Kill()
+					}
 					if sc.Fault.Kind == "cancelS" || sc.Fault.Kind == "cancelB" {
 						scancel()
 					}
